@@ -31,7 +31,12 @@ RULE = (
     "the format specification, independent decompression (stdlib gzip/bz2, lz4.frame, zstandard, + the CLIs gzip/bzip2/"
     "zstd/lz4 -t when present) succeeds, the decompressed payload starts with the container magic and read on its own gives "
     "the same records; every naming: the adapter class returned by RecordReader is StreamReader / AvroReader and the "
-    "observations of the records read equal those written (stream: observe.normalise(obs) equality; avro: the C19 comparison, "
+    "observations of the records read equal those written; also per codec x container: 2 and 3 writers open at once with "
+    "alternating writes, closed first-in-first-out / last-in-first-out, then readers iterated in lockstep (each file holds "
+    "exactly its own records); a path holding a longer file of the same cell, or other data, written again (no stale tail: the "
+    "whole file is consumed by the independent decompressor frame by frame, only the new records come back); compound "
+    "names x.csv|json|jsonl|avro|records.json|tar.<codec> given as plain paths (last extension decides: a <codec>'d record "
+    "stream) (stream: observe.normalise(obs) equality; avro: the C19 comparison, "
     "floats to single precision, timestamps as instants).  Plus JSON / JSON lines / CSV chosen by extension, and junk inputs "
     "(empty, text, record repr text, random bytes, each codec around junk, each codec magic followed by junk, Avro magic "
     "followed by junk; non-stream input that contains the stream magic text at offset 0-5/7/10 instead of the header frame, "
@@ -89,6 +94,7 @@ JUNK_KINDS = ("empty", "text", "record-repr", "random", "random-long", "nul", "a
 BOGUS_TAILS = ("text", "frames", "pad+frames")
 BOGUS_KINDS = tuple("bogus-hdr@%d+%s" % (k, t) for k in (0, 1, 2, 3, 4, 5, 7, 10) for t in BOGUS_TAILS if not (k > 5 and t == "pad+frames"))
 JUNK_KINDS += BOGUS_KINDS + tuple("%s(bogus-hdr@%d+%s)" % (c, k, t) for c in ("gz", "bz2", "lz4", "zst") for k in (0, 2, 5) for t in BOGUS_TAILS)
+COMPOUND_INNER = (".csv", ".json", ".jsonl", ".avro", ".records.json", ".tar")  # x<inner>.<codec>: the LAST extension decides
 JUNK_VIAS = ("bytesio", "buffered", "raw", "neutral", "neutral-avro", "ext", "stdin")
 
 
@@ -149,6 +155,25 @@ def generate(ctx):
                 if ctx.mine(idx):
                     yield {"k": "junk", "kind": kind, "via": via, "s": subseed("c11", ctx.seed, "junk", kind, via, rep)}
                 idx += 1
+    for rep in range(ctx.scale(1, 3)):
+        for codec in CODECS:
+            for container in CONTAINERS:
+                for nw in (2, 3):
+                    for order in ("fifo", "lifo"):
+                        if ctx.mine(idx):
+                            yield {"k": "interleave", "codec": codec, "container": container, "writers": nw, "close": order,
+                                   "s": subseed("c11", ctx.seed, "interleave", container, nw, order, rep)}
+                        idx += 1
+                for prior in ("same-longer", "other-data"):
+                    if ctx.mine(idx):
+                        yield {"k": "overwrite", "codec": codec, "container": container, "prior": prior,
+                               "s": subseed("c11", ctx.seed, "overwrite", container, prior, rep)}
+                    idx += 1
+        for inner in COMPOUND_INNER:
+            for codec in CODECS[1:]:
+                if ctx.mine(idx):
+                    yield {"k": "compound", "inner": inner, "codec": codec, "s": subseed("c11", ctx.seed, "compound", inner, rep)}
+                idx += 1
     for rep in range(ctx.scale(2, 6)):
         for ext in (".json", ".jsonl", ".csv"):
             if ctx.mine(idx):
@@ -186,27 +211,36 @@ def build_records(case, thorough):
 
 
 def independent_decompress(codec, raw):
-    """Decompress with a standard library of the format that flow.record does not route through; raises on any format error
-    or trailing garbage."""
-    if codec == "gz":
-        return gzip.decompress(raw)
-    if codec == "bz2":
-        return bz2.decompress(raw)
-    if codec == "lz4":
-        import lz4.frame
+    """Decompress the WHOLE file with a standard library of the format, frame by frame; raises on any format error, on an
+    incomplete last frame and on trailing bytes that are not another complete frame (a stale tail)."""
+    if not raw:
+        raise ValueError("empty file")
+    out, data = [], raw
+    while data:
+        if codec == "gz":
+            import zlib
 
-        return lz4.frame.decompress(raw)
-    if codec in ("zst", "zstd"):
-        import zstandard
+            d = zlib.decompressobj(wbits=31)
+            out.append(d.decompress(data))
+        elif codec == "bz2":
+            d = bz2.BZ2Decompressor()
+            out.append(d.decompress(data))
+        elif codec == "lz4":
+            import lz4.frame
 
-        d = zstandard.ZstdDecompressor().decompressobj()
-        out = d.decompress(raw)
+            d = lz4.frame.LZ4FrameDecompressor()
+            out.append(d.decompress(data))
+        elif codec in ("zst", "zstd"):
+            import zstandard
+
+            d = zstandard.ZstdDecompressor().decompressobj()
+            out.append(d.decompress(data))
+        else:
+            raise KeyError(codec)
         if not d.eof:
-            raise ValueError("zstd frame is not complete")
-        if d.unused_data:
-            raise ValueError("trailing bytes after the zstd frame")
-        return out
-    raise KeyError(codec)
+            raise ValueError("%s frame is not complete" % codec)
+        data = d.unused_data
+    return b"".join(out)
 
 
 def cli_test(ctx, codec, path):
@@ -320,7 +354,263 @@ def execute(ctx, case):
         return execute_cell(ctx, case)
     if case["k"] == "junk":
         return execute_junk(ctx, case)
+    if case["k"] == "interleave":
+        return execute_interleave(ctx, case)
+    if case["k"] == "overwrite":
+        return execute_overwrite(ctx, case)
+    if case["k"] == "compound":
+        return execute_compound(ctx, case)
     return execute_text_ext(ctx, case)
+
+
+# ---- several files at once, overwriting, compound extensions ------------------------------------------------------------
+def sized_records(container, seed, n):
+    """About n records (stream: generated flat sequence; avro: records the Avro mapping must accept)."""
+    if container == "stream":
+        recs = workload.build_sequence(seed, nested=False, grouped=False, types=STREAM_TYPES, n_records=n, small=True)
+        return recs or workload.build_sequence(seed + 1, nested=False, grouped=False, types=STREAM_TYPES, n_records=3, n_descs=1)
+    k = 0
+    while True:
+        _, recs = am.clean_sequence(seed + k, n_records=n)
+        if recs:
+            return recs
+        k += 1
+
+
+def cell_path(ctx, codec, container, stem):
+    """-> (file path, URL for RecordWriter/RecordReader) of a matrix cell."""
+    ext = "" if codec == "none" else "." + codec
+    if container == "stream":
+        p = tmp_name(ctx, stem, ".records" + ext)
+        return p, p
+    if codec == "none":
+        p = tmp_name(ctx, stem, ".avro")
+        return p, p
+    p = tmp_name(ctx, stem, ext)
+    return p, "avro://" + p
+
+
+def verify_file(ctx, codec, container, path, url, records, before, detail, what, cli=True):
+    """Checks on a closed written file: codec magic, the WHOLE file accepted by the independent decompressor (no stale tail),
+    container magic of the payload, and exactly `records` through the path/URL, a neutral copy and a buffered file object.
+    -> True when everything held."""
+    from flow.record import RecordReader
+
+    ok = True
+    with open(path, "rb") as f:
+        raw = f.read()
+    payload = raw
+    if codec != "none":
+        magic = CODEC_MAGIC[codec]
+        if raw[:len(magic)] != magic:
+            ctx.violation(None, "%s: the file does not start with the codec magic of its extension" % what, detail=dict(detail, leading=raw[:8].hex()))
+            ok = False
+        try:
+            payload = independent_decompress(codec, raw)
+            ctx.event("independent_decompress_ok:" + codec)
+        except Exception as e:  # noqa: BLE001
+            ctx.violation(None, "%s: an independent decompressor rejects the file" % what,
+                          detail=dict(detail, exception=repr(e)[:300], file_bytes=len(raw), leading=raw[:8].hex()))
+            return False
+        if cli:
+            good, msg = cli_test(ctx, codec, path)
+            if good is False:
+                ctx.violation(None, "%s: the codec's command line tool rejects the file" % what, detail=dict(detail, stderr=msg))
+                ok = False
+    good = (STREAM_MAGIC in payload[:19]) if container == "stream" else payload[:4] == AVRO_MAGIC
+    if not good:
+        ctx.violation(None, "%s: the (decompressed) file does not start with the %s container magic" % (what, container),
+                      detail=dict(detail, leading=payload[:24].hex()))
+        ok = False
+    neutral = tmp_name(ctx, "neutral", ".bin")
+    shutil.copyfile(path, neutral)
+    f = open(path, "rb")
+    try:
+        for naming, make in (("ext", lambda: RecordReader(url)),
+                             ("neutral", lambda: RecordReader(neutral if container == "stream" else "avro://" + neutral)),
+                             ("buffered", lambda: RecordReader(fileobj=f))):
+            rd, got, err = drain(make)
+            d = dict(detail, naming=naming)
+            if err is not None:
+                ctx.violation(None, "%s via %s: reading raised %s" % (what, naming, type(err).__name__),
+                              detail=dict(d, exception=repr(err)[:300], records_before_error=len(got)))
+                ok = False
+                continue
+            if not reader_class_ok(rd, container):
+                ctx.violation(None, "%s via %s: RecordReader returned %s" % (what, naming, type(rd).__name__), detail=d)
+                ok = False
+            if not compare(ctx, container, records, before, got, "%s via %s" % (what, naming), d):
+                ok = False
+            ctx.event("records_read", len(got))
+    finally:
+        f.close()
+        _rm(neutral)
+    return ok
+
+
+def execute_interleave(ctx, case):
+    """Several writers of one codec open at the same time, writes alternating; then several readers iterated in lockstep."""
+    from flow.record import RecordReader, RecordWriter
+
+    codec, container, nw = case["codec"], case["container"], case["writers"]
+    rng = random.Random(case["s"])
+    big = not ctx.quick
+    seqs = [sized_records(container, case["s"] + 101 * i, rng.choice([30, 80, 200] if not big else [200, 800, 3000])) for i in range(nw)]
+    ctx.ev()
+    befores = [[observe.normalise(observe.obs(r)) for r in recs] for recs in seqs]
+    paths = [cell_path(ctx, codec, container, "il%d-" % i) for i in range(nw)]
+    detail = {"codec": codec, "container": container, "writers": nw, "close_order": case["close"], "records": [len(x) for x in seqs]}
+    what = "%d files open at once" % nw
+    try:
+        writers = [RecordWriter(url) for _, url in paths]
+        its = [iter(x) for x in seqs]
+        live = list(range(nw))
+        while live:
+            for i in list(live):
+                burst = rng.choice([1, 1, 2, 5])
+                for _ in range(burst):
+                    r = next(its[i], None)
+                    if r is None:
+                        live.remove(i)
+                        break
+                    writers[i].write(r)
+                if rng.random() < 0.05 and i in live:
+                    writers[i].flush()
+        order = list(range(nw)) if case["close"] == "fifo" else list(reversed(range(nw)))
+        for i in order:
+            writers[i].flush()
+            writers[i].close()
+    except Exception as e:  # noqa: BLE001
+        ctx.violation(None, "%s: interleaved writing raised %s" % (what, type(e).__name__), detail=dict(detail, exception=repr(e)[:300]))
+        for p, _ in paths:
+            _rm(p)
+        return
+    ctx.event("interleaved_writer_groups")
+    ok = True
+    for i, (p, url) in enumerate(paths):
+        ok = verify_file(ctx, codec, container, p, url, seqs[i], befores[i], dict(detail, file=i), what + ", each file on its own", cli=(i == 0)) and ok
+    # readers in lockstep: by path/URL, then over buffered file objects (extension-driven and sniffed decompression)
+    for mode in ("ext", "buffered"):
+        files = []
+        try:
+            if mode == "ext":
+                readers = [RecordReader(url) for _, url in paths]
+            else:
+                files = [open(p, "rb") for p, _ in paths]
+                readers = [RecordReader(fileobj=f) for f in files]
+            its = [iter(r) for r in readers]
+            gots = [[] for _ in range(nw)]
+            live = list(range(nw))
+            while live:
+                for i in list(live):
+                    r = next(its[i], None)
+                    if r is None:
+                        live.remove(i)
+                    else:
+                        gots[i].append(r)
+            for r in readers:
+                r.close()
+        except Exception as e:  # noqa: BLE001
+            ctx.violation(None, "%s: reading them in lockstep (%s) raised %s" % (what, mode, type(e).__name__),
+                          detail=dict(detail, exception=repr(e)[:300]))
+            ok = False
+            continue
+        finally:
+            for f in files:
+                f.close()
+        for i in range(nw):
+            if not compare(ctx, container, seqs[i], befores[i], gots[i], "%s, read in lockstep (%s)" % (what, mode), dict(detail, file=i)):
+                ok = False
+        ctx.event("lockstep_reader_groups")
+    for p, _ in paths:
+        _rm(p)
+    if ok:
+        ctx.cell("interleave", codec, container, nw, case["close"])
+    ctx.nontrivial("interleave", codec, container, nw, case["close"], case["s"])
+    ctx.sample({"case": case, "records": detail["records"]}, kind="interleave:" + codec)
+
+
+def execute_overwrite(ctx, case):
+    """A path that already holds a longer file (same codec, or other data) is written again: only the new data may remain."""
+    from flow.record import RecordWriter
+
+    codec, container, prior = case["codec"], case["container"], case["prior"]
+    long_recs = sized_records(container, case["s"] + 5, 600 if ctx.quick else 4000)
+    short_recs = sized_records(container, case["s"] + 9, random.Random(case["s"]).choice([1, 2, 5]))
+    ctx.ev()
+    before = [observe.normalise(observe.obs(r)) for r in short_recs]
+    path, url = cell_path(ctx, codec, container, "ow")
+    detail = {"codec": codec, "container": container, "prior": prior, "long": len(long_recs), "short": len(short_recs)}
+    what = "overwriting an existing file (%s)" % prior
+    try:
+        if prior == "same-longer":
+            w = RecordWriter(url)
+            try:
+                for r in long_recs:
+                    w.write(r)
+            finally:
+                w.flush()
+                w.close()
+        else:
+            # the path previously held something else: a long PLAIN stream (for a codec path) / long gzip data (for a plain path)
+            other = tmp_name(ctx, "prior", ".records" if codec != "none" else ".records.gz")
+            w = RecordWriter(other)
+            try:
+                for r in sized_records("stream", case["s"] + 13, 600 if ctx.quick else 4000):
+                    w.write(r)
+            finally:
+                w.flush()
+                w.close()
+            shutil.copyfile(other, path)
+            _rm(other)
+        detail["prior_bytes"] = os.path.getsize(path)
+        w = RecordWriter(url)
+        try:
+            for r in short_recs:
+                w.write(r)
+        finally:
+            w.flush()
+            w.close()
+        detail["new_bytes"] = os.path.getsize(path)
+    except Exception as e:  # noqa: BLE001
+        ctx.violation(None, "%s raised %s" % (what, type(e).__name__), detail=dict(detail, exception=repr(e)[:300]))
+        _rm(path)
+        return
+    if verify_file(ctx, codec, container, path, url, short_recs, before, detail, what):
+        ctx.cell("overwrite", codec, container, prior)
+    ctx.event("overwrites")
+    _rm(path)
+    ctx.nontrivial("overwrite", codec, container, prior, case["s"])
+
+
+def execute_compound(ctx, case):
+    """x<inner>.<codec> given to RecordWriter as a plain path: the last extension decides -> a <codec>'d record stream."""
+    from flow.record import RecordWriter
+
+    codec, inner = case["codec"], case["inner"]
+    records = sized_records("stream", case["s"], random.Random(case["s"]).choice([1, 3, 20]))
+    ctx.ev()
+    before = [observe.normalise(observe.obs(r)) for r in records]
+    path = tmp_name(ctx, "cx", inner + "." + codec)
+    detail = {"name": "x" + inner + "." + codec, "records": len(records)}
+    what = "compound extension"
+    try:
+        w = RecordWriter(path)
+        try:
+            for r in records:
+                w.write(r)
+        finally:
+            w.flush()
+            w.close()
+    except Exception as e:  # noqa: BLE001
+        ctx.violation(None, "%s: writing raised %s" % (what, type(e).__name__), detail=dict(detail, exception=repr(e)[:300]))
+        _rm(path)
+        return
+    if verify_file(ctx, codec, "stream", path, path, records, before, detail, what, cli=False):
+        ctx.cell("compound", inner, codec)
+    ctx.event("compound_files")
+    _rm(path)
+    ctx.nontrivial("compound", inner, codec, case["s"])
 
 
 def execute_cell(ctx, case):
@@ -769,6 +1059,9 @@ def finish(ctx):
     if ctx.shard == 0:
         ctx.note("matrix_cells_expected", len(CODECS) * len(CONTAINERS) * len(NAMINGS) + len(CONTAINERS) * len(OFFSET_NAMINGS))
         ctx.note("junk_cells_expected", len(JUNK_KINDS) * len(JUNK_VIAS))
+        ctx.note("interleave_cells_expected", len(CODECS) * len(CONTAINERS) * 4)
+        ctx.note("overwrite_cells_expected", len(CODECS) * len(CONTAINERS) * 2)
+        ctx.note("compound_cells_expected", len(COMPOUND_INNER) * (len(CODECS) - 1))
         ctx.note("cli_tools", {k: (v or "absent") for k, v in ctx.state["clis"].items()})
         ctx.note("rdump_argv0", ctx.state["rdump"])
     if ctx.evaluations:
